@@ -472,9 +472,51 @@ func Concat(hi, lo *Term) *Term {
 
 func BoolToBV(b *Term, w int) *Term { return Ite(b, BV(w, 1), BV(w, 0)) }
 
-func Select(arr, idx *Term) *Term { return mk("select", 8, "", 0, 0, arr, idx) }
+// Select reads a byte of an SMT array, looking through stores when indices are syntactically decidable.
+func Select(arr, idx *Term) *Term {
+	for arr.op == "store" {
+		si := arr.args[1]
+		if si == idx {
+			return arr.args[2]
+		}
+		if si.k && idx.k { // different constants
+			arr = arr.args[0]
+			continue
+		}
+		if distinctByOffset(si, idx) {
+			arr = arr.args[0]
+			continue
+		}
+		break
+	}
+	if arr.op == "constarr" {
+		return BV(8, arr.c)
+	}
+	return mk("select", 8, "", 0, 0, arr, idx)
+}
+
+// distinctByOffset: a and b are x+k1 and x+k2 (or x and x+k) with different constants.
+func distinctByOffset(a, b *Term) bool {
+	base := func(t *Term) (*Term, uint64) {
+		if t.op == "bvadd" && t.args[1].k {
+			return t.args[0], t.args[1].c
+		}
+		return t, 0
+	}
+	ba, ka := base(a)
+	bb, kb := base(b)
+	return ba == bb && ka != kb
+}
+
 func Store(arr, idx, v *Term) *Term {
 	return mk("store", -1, "", 0, 0, arr, idx, v)
+}
+
+// ConstArr is the array holding v at every index.
+func ConstArr(v uint64) *Term {
+	t := mk("constarr", -1, fmt.Sprint(v), 0, 0)
+	t.c = v & 0xff
+	return t
 }
 
 func sortOf(t *Term) string {
@@ -497,6 +539,8 @@ func (t *Term) head(ref func(*Term) string) string {
 		return t.op
 	case "var":
 		return t.name
+	case "constarr":
+		return fmt.Sprintf("((as const (Array (_ BitVec 64) (_ BitVec 8))) (_ bv%d 8))", t.c)
 	case "zext":
 		return fmt.Sprintf("((_ zero_extend %d) %s)", t.p1, ref(t.args[0]))
 	case "sext":
